@@ -280,6 +280,7 @@ def run(idx: ProgramIndex, rep: Report, tier: str):
     aliasing_obligations(idx, rep, "C10-4", list(M.methods.values()), 15, "MultivariateNormal methods interpreted")
     carried_factor(idx, rep, M)
     constructor_broadcasts(idx, rep, M)
+    positional_dims_on_full_batch(idx, rep, M)
 
 
 # ---- C10-5: a Cholesky factor carried over into a new distribution ------------------------------------------------------
@@ -445,3 +446,51 @@ def constructor_broadcasts(idx: ProgramIndex, rep: Report, M):
     rep.add("C10-6", "%s:MultivariateNormal.__init__[lazy branch]" % MOD, init.where, n > 0 and not probs,
             "loc and covariance are expanded to the declared batch shape on %d lazy path(s)" % n if n > 0 and not probs else
             ("; ".join(sorted(probs)) + ": a lazy distribution whose mean and covariance have different batch shapes is accepted and reports the broadcast batch shape, but log_prob / rsample / kl / indexing work on the un-broadcast tensors (raise, or return a non-square 'covariance')" if probs else "no lazy construction path found"), {})
+
+
+# ---- C10-7 ---------------------------------------------------------------------------------------------------------
+def positional_dims_on_full_batch(idx: ProgramIndex, rep: Report, M):
+    """torch keeps the scale factor of a dense MultivariateNormal *un-broadcast* (`_unbroadcasted_scale_tril` has the batch dimensions of
+    the covariance argument only, which may be fewer than the distribution's).  A non-negative batch position - `dim` after
+    `dim = len(self.batch_shape) + dim + 1` - addresses the distribution's batch shape, so it may be applied to the factor only after the
+    factor was expanded to that batch shape; right-aligned operations (expand, negative dims) are fine as they are."""
+    from ..symbolic import inline, walk_paths
+    rep.rule("C10-7", "a position in the distribution's batch shape is applied to the un-broadcast scale factor only after the factor was expanded to that batch shape")
+    n = 0
+    for name, fi in sorted(M.methods.items()):
+        uses = [c for c in calls_in(fi.node) if isinstance(c.func, ast.Attribute) and c.func.attr in ("unsqueeze", "squeeze", "select", "movedim", "permute", "transpose") and c.args]
+        if not uses or "unbroadcasted" not in src(fi.node):
+            continue
+        seen = set()
+        probs = set()
+        for path, seq in walk_paths(fi):
+            for st, env in seq:
+                if not isinstance(st, ast.stmt):
+                    continue
+                for c in (x for x in ast.walk(st) if isinstance(x, ast.Call) and isinstance(x.func, ast.Attribute) and x.func.attr in ("unsqueeze", "squeeze", "select", "movedim") and x.args):
+                    recv = inline(c.func.value, env)
+                    if "unbroadcasted" not in src(recv):
+                        continue
+                    # on a path that assumed `<receiver> is not None` to be false the call cannot be reached with a tensor
+                    none_path = False
+                    for s_, e_ in seq:
+                        if getattr(s_, "kind", "") == "assume" and not s_.truth and isinstance(s_.node, ast.Compare) and len(s_.node.ops) == 1 and isinstance(s_.node.ops[0], ast.IsNot) \
+                           and isinstance(s_.node.comparators[0], ast.Constant) and s_.node.comparators[0].value is None and ast.dump(inline(s_.node.left, e_)) == ast.dump(recv):
+                            none_path = True
+                    if none_path:
+                        continue
+                    if (c.lineno, c.col_offset) not in seen:
+                        seen.add((c.lineno, c.col_offset))
+                        n += 1
+                    arg = inline(c.args[0], env)
+                    positional = "batch_shape" in src(arg) or (isinstance(c.args[0], ast.Name) and any(getattr(s_, "kind", "") == "assume" and c.args[0].id in src(s_.node) and "< 0" in src(s_.node) for s_, _e in seq))
+                    neg_literal = isinstance(arg, ast.UnaryOp) and isinstance(arg.op, ast.USub)
+                    expanded = any(isinstance(x, ast.Call) and isinstance(x.func, ast.Attribute) and x.func.attr == "expand" and "batch_shape" in src(x) for x in ast.walk(recv))
+                    if not neg_literal and not expanded and (positional or isinstance(c.args[0], ast.Name)):
+                        probs.add("`%s` (line %d) applies the batch position `%s` to the un-broadcast factor" % (" ".join(src(c).split())[:60], c.lineno, src(c.args[0])))
+        if not seen:
+            continue
+        rep.add("C10-7", "%s:MultivariateNormal.%s[positions on the un-broadcast factor]" % (MOD, name), fi.where, not probs,
+                "the factor is expanded to the batch shape before positions are applied" if not probs else
+                "; ".join(sorted(probs)) + ": for a dense distribution whose covariance has fewer batch dimensions than its mean the new dimension lands in the wrong place (wrong batch shape, or an exception)", {})
+    rep.floor("C10-7", "positional operations on the un-broadcast factor", n, 1)
